@@ -15,9 +15,10 @@ RESN = ['ALA', 'GLY', 'LYS', 'TRP', 'SER', 'VAL']
 
 def make_world(rng, root, nspecies=None, ninst=(1, 12), order='random', box_kind='rect', with_solvent=True,
                with_vel=False, title=None, end_for=None, multi_res_prob=0.35, small_prob=0.3,
-               unique_grid=False, sizes_hint=None, resid_mode='consecutive'):
+               unique_grid=False, sizes_hint=None, resid_mode='consecutive', end_extra=None, counts=None):
     """Returns a dict describing the world (see keys below)."""
     os.makedirs(root, exist_ok=True)
+    counts_in = counts
     nspecies = nspecies or int(rng.integers(2, 5))
     species, end_species = {}, {}
     used_sig = set()
@@ -41,7 +42,7 @@ def make_world(rng, root, nspecies=None, ninst=(1, 12), order='random', box_kind
                 resn = [name[:4]]
             sig = {(rn, s) for rn, s in zip(resn, sizes)}
             # end resolution: same residues, strictly more atoms each
-            esizes = [s + int(rng.integers(1, 6)) for s in sizes]
+            esizes = [s + (int(rng.integers(1, 6)) if end_extra is None else int(end_extra)) for s in sizes]
             esig = {(rn, s) for rn, s in zip(resn, esizes)}
             if not (sig & used_sig) and not (esig & used_sig) and not (sig & esig):
                 used_sig |= sig | esig
@@ -65,7 +66,7 @@ def make_world(rng, root, nspecies=None, ninst=(1, 12), order='random', box_kind
         k = int(rng.integers(1, len(names) + 1))
         end_for = sorted(rng.choice(names, size=k, replace=False).tolist())
     # sequence of instances
-    counts = {n: int(rng.integers(ninst[0], ninst[1] + 1)) for n in species}
+    counts = {n: int(rng.integers(ninst[0], ninst[1] + 1)) if not (counts_in and n in counts_in) else int(counts_in[n]) for n in species}
     seq = []
     if order == 'blocks':
         for n in rng.permutation(list(species)):
